@@ -53,7 +53,7 @@ func VerifC04Login() {
 		zzverif.Reach("C04.login.refused")
 		zzverif.Assert(!ver.loginOK || false, "C04.login.refusal-only-when-verifier-refuses")
 		_, ok := svr.ctlManager.GetByID(login.RunID)
-		zzverif.Assert(!ok && len(svr.ctlManager.ctlsByRunID) == 0, "C04.login.refusal-leaves-no-session")
+		zzverif.Assert(!ok && zzSessions(svr) == 0, "C04.login.refusal-leaves-no-session")
 		zzverif.Assert(len(conn.written) == 0, "C04.login.no-success-response-on-refusal")
 	}
 }
@@ -89,11 +89,11 @@ func VerifC04First() {
 	case 0:
 		okLogin := ver.loginOK && plug.outcome <= 1
 		if okLogin {
-			zzverif.Assert(conn.closed == 0 && len(svr.ctlManager.ctlsByRunID) == 1, "C04.first.login-accepted")
+			zzverif.Assert(conn.closed == 0 && zzSessions(svr) == 1, "C04.first.login-accepted")
 			zzverif.Reach("C04.first.login-accepted")
 		} else {
 			zzverif.Assert(conn.closed >= 1, "C04.first.refused-login-closed")
-			zzverif.Assert(len(svr.ctlManager.ctlsByRunID) == 0, "C04.first.refused-login-no-state")
+			zzverif.Assert(zzSessions(svr) == 0, "C04.first.refused-login-no-state")
 			zzverif.Assert(len(conn.written) == 1, "C04.first.refused-login-one-response")
 			if len(conn.written) == 1 {
 				r, isR := conn.written[0].(*msg.LoginResp)
@@ -106,12 +106,12 @@ func VerifC04First() {
 		}
 	case 1:
 		zzverif.Assert(conn.closed >= 1, "C04.first.workconn-unknown-session-closed")
-		zzverif.Assert(len(svr.ctlManager.ctlsByRunID) == 0, "C04.first.workconn-no-state")
+		zzverif.Assert(zzSessions(svr) == 0, "C04.first.workconn-no-state")
 		zzverif.Reach("C04.first.workconn-refused")
 	default:
 		zzverif.Assert(conn.closed >= 1, "C17.first.unexpected-or-malformed-first-message-disconnected")
 		zzverif.Assert(len(conn.written) == 0, "C17.first.no-reply-to-unexpected-message")
-		zzverif.Assert(len(svr.ctlManager.ctlsByRunID) == 0 && ver.loginCalls == 0, "C17.first.other-state-untouched")
+		zzverif.Assert(zzSessions(svr) == 0 && ver.loginCalls == 0, "C17.first.other-state-untouched")
 		zzverif.Reach("C17.first.disconnected")
 	}
 }
@@ -123,6 +123,7 @@ func zzControl(svr *Service, runID string, poolCount int) (*Control, *zzConn) {
 	ctl, err := NewControl(context.Background(), svr.rc, svr.pxyManager, svr.pluginManager, svr.authVerifier, conn, false, login, svr.cfg)
 	zzverif.Assume(err == nil)
 	svr.ctlManager.Add(runID, ctl)
+	zzverif.Guard(ctl.proxies, &ctl.mu, "Control.proxies")
 	return ctl, conn
 }
 
